@@ -741,6 +741,9 @@ theorem tryToOffsetInterval_eq {o : IntervalDomain} (ho : o.WF ∧ o.interval.w 
     have h2 : InRange 64 o.interval.stop := by rw [← ho.2]; exact ho.1.1.2.2.1
     rw [ho.2, C03.tryToI64_inRange (by decide) (by decide) h1, C03.tryToI64_inRange (by decide) (by decide) h2]
 
+theorem Obj.addTargets_mem (o : Obj) (v : DData) : (o.addTargets v).mem = o.mem := rfl
+theorem Obj.addTargets_unique (o : Obj) (v : DData) : (o.addTargets v).unique = o.unique := rfl
+
 /-- **C13-set-value.** `AbstractObject::set_value` on a unique object, for a 64-bit offset value `o` and a concrete
 write at an offset `x ∈ γ o`: strong update for a single offset, interval marking for a bounded interval, marking
 of all cells otherwise. -/
@@ -752,6 +755,7 @@ theorem setValue_sound {ρ : Nat → Int} {base : Int} {σ : Sem.State} (h8 : σ
       RegionIn ρ base ob'.mem (σ.writeMem (cellAddr base x) d.size v.toNat) := by
   have hxr : InRange 64 x := by rw [← ho.2]; exact Interval.mem_inRange ho.1.1 hx
   unfold Obj.setValue
+  simp only [Obj.addTargets_mem, Obj.addTargets_unique]
   cases htb : o.tryToBitvec with
   | some c =>
     rw [offsetPos_single ho htb]
